@@ -1684,8 +1684,9 @@ func (g *functionGenerator) genNext(inst *ssa.Next) (insts []wat.Inst, ret_type 
 	if inst.IsString {
 		return g.module.EmitGenNext_String(iter)
 	} else {
-		t := inst.Type().(*types.Tuple)
-		return g.module.EmitGenNext_Map(iter, g.tLib.compile(t.At(1).Type()), g.tLib.compile(t.At(2).Type()))
+		// 未绑定的 k/v 在 Next 的元组类型中是 invalid 类型, 因此键值类型取自被迭代的 map
+		t := inst.Iter.(*ssa.Range).X.Type().Underlying().(*types.Map)
+		return g.module.EmitGenNext_Map(iter, g.tLib.compile(t.Key()), g.tLib.compile(t.Elem()))
 	}
 }
 
